@@ -122,11 +122,15 @@ def judge (l : List Nat) (e : DirSpec.SpecEntry) : Verdict :=
     let implConv := DirSpec.dropTrailingPads r
     let specName := DirSpec.nameOf r
     if l = specName ∨ l = implConv then
+      -- F17 signature: a complete run honoured although more than 255 units remain
       if l.length > 255 then .tooLong
       -- the implementation's strip-all convention is accepted, except when a legitimately trailing U+FFFF is lost (F12)
       else if l ≠ specName ∧ DirSpec.wellPadded r ∧ specName.length ≤ 255 then .ffffLost
       else .ok
-    else if l.isEmpty then .ignored
+    else if l.isEmpty then
+      -- no long name for a complete run: correct iff the stripped run exceeds 255 units (the reader's cap)
+      if implConv.length > 255 then .ok else .ignored
+    -- F18 signature: units that are not the run's
     else .foreign
 
 def worst (vs : List (Nat × Verdict)) : Option (Nat × Verdict) :=
